@@ -316,6 +316,8 @@ func GetParam(ctx *Task, expr *ast.CallExpr, params []*Param, i int) (any, *errc
 			}
 			ret = append(ret, v.V)
 		}
+		// the arguments are consumed: they are not the callee's return value
+		ctx.Regs.Reset()
 		return ret, nil
 	} else {
 		if expr.ParamNormalized[i] == nil {
@@ -334,6 +336,8 @@ func GetParam(ctx *Task, expr *ast.CallExpr, params []*Param, i int) (any, *errc
 		if errReg != nil {
 			return nil, NewRunError(ctx, errReg.Error(), expr.ParamNormalized[i].StartPos())
 		}
+		// the argument is consumed: it is not the callee's return value
+		ctx.Regs.Reset()
 		return v.V, nil
 	}
 }
